@@ -201,7 +201,9 @@ class C03(Prop):
                     '."a"b="c"\npara', "{m} = '<script>x</script>'\n\n<div>{m}</div>", '.cls\n<div>\n\npara',
                     '<image:x"y>', '<image:x"y|z>\n', '."a onerror=alert(1) b"\n<image:http://h/p?style=|cap>',
                     '.k\n<image:http://h/p?class=|cap>', '.#i\n<image:http://h/p?id=|cap>', '<<#a>>', 'a <b>b</b> &amp; &bogus; &#1; <!-- c -->',
-                    '.#id "a:b"\n- item\n\n.x\nt:: d', '# H\n## H', "{--header-ids} = 'x'\n# A b\n# A b"]:
+                    '.#id "a:b"\n- item\n\n.x\nt:: d', '# H\n## H', "{--header-ids} = 'x'\n# A b\n# A b",
+                    # F46: what only looks like a character entity is text with an escaped '&'; one-letter names are entities
+                    '&_x; &1a; &#zz; &#; &#x; &\u00e9; &t; &T1; &#38; &#x26; &#X26; &amp &copy;', '[&_x;](&1a;) *&#zz;* <image:u|&_y;>']:
             for mode in [1, 2, 3, 11, 15]:
                 out.append({'steps': [{'src': src, 'safeMode': mode, 'callback': True}]})
         # F29: block options left pending by a trusted render (no definitions changed) meet an untrusted first block
